@@ -80,6 +80,10 @@ func tablesEqual(c *mc.Ctx, what string, w *probdist.WeightedDist, d *ref.Dist) 
 		fail(c, "tables", "tables/values", "%s: value table differs from the reference: %v vs %v", what, v, d.Values)
 		return false
 	}
+	if len(wt) != len(d.Weights) {
+		fail(c, "tables", "tables/weights", "%s: %d weights for %d values (reference: %d weights)", what, len(wt), len(v), len(d.Weights))
+		return false
+	}
 	for i := range wt {
 		if wt[i] != d.Weights[i] {
 			fail(c, "tables", "tables/weights", "%s: weight %d is %v, reference %v", what, i, wt[i], d.Weights[i])
